@@ -63,3 +63,67 @@ MODULES = [('Status', [
     dict(lean='hermTail', header='HermEigsBase.h', custom=compute_tail, path='HermEigsBase::compute'),
     dict(lean='genTail', header='GenEigsBase.h', custom=compute_tail, path='GenEigsBase::compute'),
 ], '')]
+
+# ------------------------------------------------------------------ accessor loops (module Gen.Access)
+from xlate import Out
+
+def _body(node): return [c for c in node['inner'] if c['kind'] == 'CompoundStmt'][0]['inner']
+
+def eigenvalues_loop(tu, t):
+    """`Index j = 0; for (i < m_nev) if (m_ritz_conv[i]) { res[j] = m_ritz_val[i]; j++; }` of eigenvalues(): translated as written"""
+    node = tu.find(t['path'], 0); body = _body(node)
+    ak = t['cfg']['arr']
+    fn = Fn(tu, node, dict(mode='value', members={'m_nev': 'int', 'm_ritz_conv': 'arr_bool', 'm_ritz_val': ak}))
+    kinds = [s['kind'] for s in body]
+    if kinds != ['DeclStmt', 'DeclStmt', 'IfStmt', 'DeclStmt', 'ForStmt', 'ReturnStmt']: raise XlateError('eigenvalues(): unexpected statement sequence ' + str(kinds))
+    # the early return `if (!nconv) return res;` must be exactly that
+    g = body[2]
+    if len(g['inner']) != 2 or g['inner'][1]['kind'] != 'ReturnStmt': raise XlateError('eigenvalues(): early exit is not `if (!nconv) return res;`')
+    out = Out(); env = {'res': ('res', ak)}
+    fn.stmts(body[3:5], env, out, 2, lambda e, o, i: o.add(i, '(j, res)'))
+    ty = '(α × α)' if ak == 'arr_cplx' else 'α'
+    return (f'def {t["lean"]} {{α : Type}} [Add α] [Sub α] [Mul α] [Div α] [Neg α] [Sc α] (m_nev : Int) (m_ritz_conv : Int → Bool) (m_ritz_val : Int → {ty}) (res : Int → {ty}) : Int × (Int → {ty}) :=\n'
+            + out.render())
+
+def eigenvectors_loop(tu, t):
+    """`nvec = min(nvec, nconv); … Index j = 0; for (i < m_nev && j < nvec) if (m_ritz_conv[i]) { ritz_vec_conv.col(j) = m_ritz_vec.col(i); j++; }`:
+    the column copy is recorded as `colsel[j] = i` (which stored Ritz vector goes to which output column)"""
+    node = tu.find(t['path'], 0); body = _body(node)
+    fn = Fn(tu, node, dict(mode='value', members={'m_nev': 'int', 'm_ritz_conv': 'arr_bool'}, params={'nvec': 'int'}))
+    kinds = [s['kind'] for s in body]
+    if kinds != ['DeclStmt', 'BinaryOperator', 'DeclStmt', 'IfStmt', 'DeclStmt', 'DeclStmt', 'ForStmt', 'BinaryOperator', 'ReturnStmt']:
+        raise XlateError('eigenvectors(nvec): unexpected statement sequence ' + str(kinds))
+    import copy
+    f = copy.deepcopy(body[6])
+    def member_call(x, name):
+        # CallExpr( CXXDependentScopeMemberExpr member=name (obj), args… )
+        return x.get('kind') == 'CallExpr' and x['inner'] and x['inner'][0].get('kind') == 'CXXDependentScopeMemberExpr' and x['inner'][0].get('member') == name
+    def rewrite(x):
+        if not isinstance(x, dict): return
+        inner = x.get('inner', [])
+        for k, c in enumerate(inner):
+            if isinstance(c, dict) and c.get('kind') == 'BinaryOperator' and c.get('opcode') == '=':
+                lhs, rhs = c['inner']
+                if member_call(lhs, 'noalias'): lhs = lhs['inner'][0]['inner'][0]
+                if member_call(lhs, 'col') and member_call(rhs, 'col'):
+                    lobj = lhs['inner'][0]['inner'][0]; robj = rhs['inner'][0]['inner'][0]
+                    if (lobj.get('referencedDecl') or {}).get('name') != 'ritz_vec_conv' or robj.get('name') != 'm_ritz_vec':
+                        raise XlateError('eigenvectors(nvec): column copy is not ritz_vec_conv.col(j) = m_ritz_vec.col(i)')
+                    inner[k] = {'kind': 'BinaryOperator', 'opcode': '=', 'type': {'qualType': 'long'}, 'inner': [
+                        {'kind': 'ArraySubscriptExpr', 'type': {'qualType': 'long'}, 'inner': [
+                            {'kind': 'DeclRefExpr', 'type': {'qualType': 'long *'}, 'referencedDecl': {'kind': 'VarDecl', 'name': 'colsel'}}, lhs['inner'][1]]},
+                        rhs['inner'][1]]}
+                    continue
+            rewrite(c)
+    rewrite(f)
+    # `nvec = (std::min)(nvec, nconv)` with nconv = m_ritz_conv.count() passed in as a parameter
+    out = Out(); env = {'colsel': ('colsel', 'arr_int'), 'nvec': ('nvec', 'int'), 'nconv': ('nconv', 'int')}
+    fn.stmts([body[1], body[5], f], env, out, 2, lambda e, o, i: o.add(i, '(nvec, j, colsel)'))
+    return (f'def {t["lean"]} (m_nev : Int) (m_ritz_conv : Int → Bool) (nvec : Int) (nconv : Int) (colsel : Int → Int) : Int × Int × (Int → Int) :=\n' + out.render())
+
+MODULES.append(('Access', [
+    dict(lean='hermEigenvalues_loop', header='HermEigsBase.h', custom=eigenvalues_loop, path='HermEigsBase::eigenvalues', cfg={'arr': 'arr_sc'}),
+    dict(lean='genEigenvalues_loop', header='GenEigsBase.h', custom=eigenvalues_loop, path='GenEigsBase::eigenvalues', cfg={'arr': 'arr_cplx'}),
+    dict(lean='hermEigenvectors_loop', header='HermEigsBase.h', custom=eigenvectors_loop, path='HermEigsBase::eigenvectors', cfg={}),
+    dict(lean='genEigenvectors_loop', header='GenEigsBase.h', custom=eigenvectors_loop, path='GenEigsBase::eigenvectors', cfg={}),
+], ''))
